@@ -211,6 +211,33 @@ func EnumAssignments(d int, visit func(Assignment) bool) {
 			return
 		}
 	}
+	// saturated assignments, independent of d: EVERY field non-default at once -- the k-th alternative of each
+	// field (cyclically) for every k up to the longest alternative list. The deviation bound can never reach a
+	// certificate that carries everything at once (all extensions, the longest lists).
+	for k := 0; k < saturated(); k++ {
+		for i, f := range fields {
+			if n := len(f.Alts) - 1; n > 0 {
+				a[i] = 1 + k%n
+			}
+		}
+		if !visit(a) {
+			return
+		}
+	}
+	for i := range a {
+		a[i] = 0
+	}
+}
+
+// saturated is the number of saturated assignments EnumAssignments visits after the bounded ones.
+func saturated() int {
+	m := 0
+	for _, f := range fields {
+		if n := len(f.Alts) - 1; n > m {
+			m = n
+		}
+	}
+	return m
 }
 
 func enumLevel(a Assignment, from, k int, visit func(Assignment) bool) bool {
@@ -246,7 +273,7 @@ func CountAssignments(d int) int64 {
 	for _, v := range e {
 		s += v
 	}
-	return s
+	return s + int64(saturated())
 }
 
 // CertModel enumerates the encodings of all assignments with ≤ d deviations.
